@@ -266,6 +266,19 @@ Fixpoint seal_cut {A} (seal : N) (bs : list (N * N * A)) : list (N * N * A) * bo
   | b :: rest => if (fst (fst b) =? seal) && negb (seal =? 0) then ([b], true)
                  else let '(l, s) := seal_cut seal rest in (b :: l, s)
   end.
+(* the sealing point of an epoch's event sequence: the least number m of events whose blocks reach the
+   sealing frame (bisection; the blocks of a prefix are a prefix of the blocks: C01_prefix_agreement).
+   Events after that point are not fed to the instance any more (result code 7 = "not fed") *)
+Definition reaches (vals : list (N * N)) (seal : N) (D : list fev) : bool :=
+  snd (seal_cut seal (snd (reference vals D))).
+Fixpoint seal_point (fuel : nat) (vals : list (N * N)) (seal : N) (D : list fev) (lo hi : nat) : nat :=
+  match fuel with
+  | O => hi
+  | S f => if Nat.leb hi (S lo) then hi
+           else let mid := Nat.div2 (lo + hi) in
+                if reaches vals seal (firstn mid D) then seal_point f vals seal D lo mid
+                else seal_point f vals seal D mid hi
+  end.
 (* per epoch: per-event results, blocks, sealed? — an epoch's events are judged against its own DAG *)
 Fixpoint reference_epochs (seal pol : N) (vals : list (N * N)) (epoch : N) (Ds : list (list fev))
   : list (list (N * N) * list (N * N * list N) * bool) :=
@@ -274,5 +287,8 @@ Fixpoint reference_epochs (seal pol : N) (vals : list (N * N)) (epoch : N) (Ds :
   | D :: rest =>
     let '(rs, bs) := reference vals D in
     let '(bs', sealed) := seal_cut seal bs in
-    (rs, bs', sealed) :: (if sealed then reference_epochs seal pol (next_vals pol vals epoch) (epoch + 1) rest else [])
+    let rs' := if sealed then let m := seal_point (length D) vals seal D 0 (length D) in
+                              firstn m rs ++ repeat (7, 0) (length D - m)
+               else rs in
+    (rs', bs', sealed) :: (if sealed then reference_epochs seal pol (next_vals pol vals epoch) (epoch + 1) rest else [])
   end.
